@@ -45,7 +45,9 @@ func AllShapes() []Shape {
 	return out
 }
 
-var extraTypes = []string{"int", "string", "ext.Shape", "*LShape"}
+// composite kinds included: every additional argument keeps its declared type whatever that is
+// (channel direction, element types of other packages, function types)
+var extraTypes = []string{"int", "string", "ext.Shape", "*LShape", "<-chan int", "[]ext.Shape", "chan<- *ext.Shape", "map[string]*LShape", "func(ext.Shape) error", "[2]<-chan string", "interface{ M() }"}
 
 // GenShapes builds a scenario with one method per shape.
 func GenShapes(shapes []Shape, id, pkgRel string) *Scenario {
